@@ -394,17 +394,31 @@ struct Script {
     text: &'static str,
     /// signal trapped (name), marker printed by the trap
     sig: &'static str,
+    /// alternative sequence of non-trap markers that is also correct (a `wait` interrupted by
+    /// the signal returns 384+signal and the job is collected by the next wait)
+    alt: Option<&'static [&'static str]>,
 }
 
 const SCRIPTS: &[Script] = &[
-    Script { text: "trap 'p T' USR1\np a\np b 3\np c\np d", sig: "USR1" },
-    Script { text: "trap 'p T 9' TERM\np a 2\nwhile tick v 3; do p w 4; done\np c", sig: "TERM" },
-    Script { text: "trap 'p T' INT\nf() { p f1 5; p f2; }\np a\nf\np c", sig: "INT" },
-    Script { text: "trap 'p T' USR1\np a\ny=$(p s1; p s2 3)\np b\n(p u1; p u2 2)\np c", sig: "USR1" },
-    Script { text: "trap 'p T' USR1\np a\np p1 | p p2 2\np b\nif s 0; then p t 1; fi\np c", sig: "USR1" },
-    Script { text: "trap 'p T; p T2 4' USR1\np a 1\np b\ncase a in (a) p c 2;; esac\np d", sig: "USR1" },
-    Script { text: "trap 'p T' USR1\np a\n{ p g1; p g2 3; }\nfor i in 1 2; do p l; done\np z", sig: "USR1" },
-    Script { text: "trap 'p T' USR1\ntrap 'p E' EXIT\np a\np b 2\nexit 5", sig: "USR1" },
+    Script { text: "trap 'p T' USR1\np a\np b 3\np c\np d", sig: "USR1", alt: None },
+    Script { text: "trap 'p T 9' TERM\np a 2\nwhile tick v 3; do p w 4; done\np c", sig: "TERM", alt: None },
+    Script { text: "trap 'p T' INT\nf() { p f1 5; p f2; }\np a\nf\np c", sig: "INT", alt: None },
+    Script { text: "trap 'p T' USR1\np a\ny=$(p s1; p s2 3)\np b\n(p u1; p u2 2)\np c", sig: "USR1", alt: None },
+    Script { text: "trap 'p T' USR1\np a\np p1 | p p2 2\np b\nif s 0; then p t 1; fi\np c", sig: "USR1", alt: None },
+    Script { text: "trap 'p T; p T2 4' USR1\np a 1\np b\ncase a in (a) p c 2;; esac\np d", sig: "USR1", alt: None },
+    Script { text: "trap 'p T' USR1\np a\n{ p g1; p g2 3; }\nfor i in 1 2; do p l; done\np z", sig: "USR1", alt: None },
+    Script { text: "trap 'p T' USR1\ntrap 'p E' EXIT\np a\np b 2\nexit 5", sig: "USR1", alt: None },
+    // the signal may interrupt `wait`: then it returns 384+124 at once and the job is collected later
+    Script {
+        text: "trap 'p T' USR1\np a\n{ s 0; s 3; } &\nwait $!\np w\nwait $!\np e",
+        sig: "USR1",
+        alt: Some(&["a:0", "w:508", "e:3"]),
+    },
+    Script {
+        text: "trap 'p T' TERM\n{ s 0; s 2; } & { s 0; s 4; } &\nwait\np w\nwait\np e",
+        sig: "TERM",
+        alt: Some(&["w:399", "e:0"]),
+    },
 ];
 
 fn base_trace(r: &Run) -> Vec<String> {
@@ -428,10 +442,13 @@ fn strip_trap(tr: &[String]) -> (Vec<String>, usize) {
     (rest, n)
 }
 
+static INTERRUPTED_WAITS: AtomicU64 = AtomicU64::new(0);
+
 fn part_b(ctx: &Ctx, tier: Tier, samples: &Samples) -> (u64, u64, u64) {
     let execs = AtomicU64::new(0);
     let points = AtomicU64::new(0);
     let coalesced = AtomicU64::new(0);
+    let interrupted_waits = &INTERRUPTED_WAITS;
     SCRIPTS.par_iter().for_each(|sc| {
         let setup = Setup::script(sc.text);
         let base = run_once(&setup, &RunOpts { inject: Some(Inject { at: vec![], pid: 2 }), ..Default::default() });
@@ -484,7 +501,11 @@ fn part_b(ctx: &Ctx, tier: Tier, samples: &Samples) -> (u64, u64, u64) {
                 continue;
             }
             // every $? otherwise unchanged: the non-trap markers equal the baseline
-            if rest != base_tr {
+            let alt_ok = sc.alt.is_some_and(|a| rest.iter().map(|s| s.as_str()).eq(a.iter().copied()));
+            if alt_ok {
+                interrupted_waits.fetch_add(1, Relaxed);
+            }
+            if rest != base_tr && !alt_ok {
                 ctx.violation(
                     "c11:status-clobbered",
                     &format!("markers outside the trap differ from the undisturbed run: {rest:?} vs {base_tr:?} (full {tr:?})"),
@@ -562,6 +583,7 @@ pub fn run(tier: Tier) -> i32 {
         "part_b_executions": execs,
         "part_b_syscall_injection_points": points,
         "part_b_double_deliveries_that_coalesced": coalesced,
+        "part_b_executions_in_which_the_signal_interrupted_wait": INTERRUPTED_WAITS.load(Relaxed),
         "explanation": "(a) BFS by history replay over the real TrapSet bound to a real Concurrent<VirtualSystem>: ops = set_action(Default|Ignore|Command, override f/t) per signal, peek_state, enable/disable each internal disposition group, enter_subshell with each option pair; per signal class {INT,QUIT,TERM,CHLD,TSTP,USR1,KILL,STOP} x initial disposition {default, ignored} and 4 signal pairs; after every op the disposition installed in the simulated process and its signal mask are read back and compared with the reference merge max(internal, user) (caught <=> blocked), return values compared, states merged on (model, Debug of the trap set, installed dispositions). (b) 8 scripts with traps: the signal is raised on the shell at every simulated system call index k (and at pairs k1,k2); the markers outside the trap and the exit status must equal the undisturbed run, the trap must run exactly once per delivery (1..n for n coalescing deliveries)",
     });
     ctx.finish(cov, &["signals are injected at syscall boundaries of the simulator (complete because caught signals are blocked outside select)", "reference merge model trusted"])
